@@ -7,11 +7,13 @@
        (for Softmax the derived shares are re-normalised; its sums, counts and means are covered likewise);
      * the dictionary invariants (C08) and the unused-field invariant survive warm_start, so everything proved
        about later calls (C01, C07) applies after a warm start as well.
-    ..._partial: minimality of the donor's distance (arg-min over the trained arms, first in arm order), monotonicity
+     * utils.argmin (which picks the donor) returns a key attaining the minimum distance, the first such key in
+       trained-arm order (under the order laws);
+    ..._partial: monotonicity
     in the quantile and idempotence are checked by the warm-start relation with an independently recomputed
     threshold; linear policies by correspondence. *)
 From Coq Require Import List ZArith Bool Arith QArith Qcanon Permutation.
-From MW Require Import Num Assoc AssocFacts Rng Par CF CFInv CFClean CFForget CFSpec Matrix Lin Warm WarmInv Nbr NbrFacts NbrIndep LshFacts Clu Tree CellFacts Mab FacadeCF FacadeArms MoreFacts NumLaws CFAlg Sim Extra QcInst.
+From MW Require Import Num Assoc AssocFacts Rng Par CF CFInv CFClean CFForget CFSpec Matrix Lin Warm WarmInv Nbr NbrFacts NbrIndep LshFacts Clu Tree CellFacts Mab FacadeCF FacadeArms MoreFacts NumLaws CFAlg Sim Extra QcInst OrderFacts ExpIrrel LinInv FacadeLin LpInv NbrInv CluTreeInv FacadeAll ToyFacts.
 Import ListNotations.
 
 Theorem C13_pairs_are_cold_arm_trained_donor_within_threshold :
@@ -47,5 +49,22 @@ Theorem C13_unused_fields_survive_warm_start :
     (raw : A -> A -> R) (q : R), clean N s -> cf_warm_start N aeqb s keys raw q = Some s' -> clean N s'.
 Proof. exact @cf_warm_start_clean. Qed.
 Print Assumptions C13_unused_fields_survive_warm_start.
+
+Theorem C13_donor_is_the_nearest_trained_arm :
+  forall (R A : Type) (N : Num R),
+  NumLaws N ->
+  forall (d : list (A * R)) (a : A),
+  argmin_first N d = Some a ->
+  exists v : R, In (a, v) d /\ (forall kv : A * R, In kv d -> leb N v (snd kv) = true).
+Proof. exact @argmin_first_is_minimal. Qed.
+Print Assumptions C13_donor_is_the_nearest_trained_arm.
+
+Theorem C13_invariant_survives_warm_start_linear :
+  forall (R A G : Type) (N : Num R) (aeqb : A -> A -> bool),
+  (forall x y : A, aeqb x y = true <-> x = y) ->
+  forall (s s' : (@lin R A G)) (g : G) (keys : list A) (raw : A -> A -> R) (q : R),
+  lin_keys_ok s -> lin_warm_start N aeqb s g keys raw q = Some s' -> lin_keys_ok s'.
+Proof. exact @lin_warm_start_keys_ok. Qed.
+Print Assumptions C13_invariant_survives_warm_start_linear.
 
 
